@@ -11,6 +11,7 @@ import (
 	"math/rand/v2"
 	"sort"
 	"strings"
+	"time"
 
 	dshelp "github.com/ipfs/boxo/datastore/dshelp"
 	"github.com/ipfs/go-cid"
@@ -30,6 +31,11 @@ type Params struct {
 	Replicas int    `json:"replicas"`
 	Recipe   string `json:"recipe"` // genesis-first | random | anchor-*
 	Steps    int    `json:"steps"`
+	// Bus: the LAST replica receives its deliveries the way the network layer hands them over - an
+	// event.Merge published on its bus, executed by the database's own message handler (collection
+	// lookup, per-document merge queue, conflict retry) - instead of through hook H1. All oracles stay
+	// the same: a replica that merged the same commits must agree with the others.
+	Bus bool `json:"bus,omitempty"`
 }
 
 // Oracles selects which monitors judge the history.
@@ -122,6 +128,16 @@ type replica struct {
 	deletedSeen map[string]bool
 	// uniqBlocked: a merge failed legitimately on a uniqueness constraint
 	uniqBlocked bool
+	bus         *core.BusMerger
+}
+
+// merge delivers one commit (closure already copied) to the replica.
+func (s *Sim) merge(rep *replica, docID, c string) error {
+	if rep.bus != nil {
+		s.rec.Count("deliveries_through_the_event_bus", 1)
+		return rep.bus.Merge(s.ctx, docID, core.ParseCid(c), s.colID, 20*time.Second)
+	}
+	return rep.n.Merge(s.ctx, docID, core.ParseCid(c), s.colID)
 }
 
 type Sim struct {
@@ -165,8 +181,15 @@ func Run(ctx context.Context, c core.Case, rec *core.Rec, o Oracles) {
 		core.Must(err)
 		s.reps = append(s.reps, &replica{n: n, M: map[string]bool{}, MC: map[string]bool{}, deletedSeen: map[string]bool{}})
 	}
+	if p.Bus && p.Config != "uniq" && p.Replicas >= 2 {
+		last := s.reps[len(s.reps)-1]
+		last.bus = core.NewBusMerger(last.n)
+	}
 	defer func() {
 		for _, r := range s.reps {
+			if r.bus != nil {
+				r.bus.Close()
+			}
 			r.n.Close()
 		}
 	}()
@@ -466,7 +489,7 @@ func (s *Sim) deliver(dst int, c string, tag string) bool {
 		before = s.docView(dst, ci.DocID)
 	}
 	core.CopyClosure(s.ctx, s.reps[srcRep].n, rep.n, core.ParseCid(c))
-	err := rep.n.Merge(s.ctx, ci.DocID, core.ParseCid(c), s.colID)
+	err := s.merge(rep, ci.DocID, c)
 	s.rec.Count("deliveries", 1)
 	s.logf("%sdeliver %s(h%d) of %s r%d->r%d heads_before=%d err=%v", tag, c[len(c)-5:], ci.Height, short(ci.DocID), srcRep, dst, len(heads), err)
 	if err != nil {
